@@ -210,6 +210,12 @@ fn prop(c: &Case, info: &mut CaseInfo) -> Verdict {
     info.nt(class == Class::Flagged && !c.allow);
     let obs = format!("authority {:?} (form {}, class {:?}) placement {:?} allow-dubious-hosts={}: rsync invocations {:?}, CONNECTs {:?}, repository() = {:?}", c.authority, c.form, class, c.placement, c.allow, rsync_calls, all_connects, r1);
     match class {
+        Class::Open if !c.allow && foreign.iter().any(|a| connect_host_is_dubious(a)) => {
+            // The statement's wording leaves the *spelling* open, but what was observed is not open at
+            // all: with the filter on, an HTTPS request was started to a host that is an IP address
+            // literal (or localhost) — the HTTP client normalised the authority the filter had passed.
+            Verdict::fail(KEY_NORMALISED, obs)
+        }
         Class::Open => {
             OPEN_FORMS.lock().unwrap().insert(format!("{} allow={} {:?}", c.authority, c.allow, c.placement), format!("rsync invoked: {}, CONNECTs: {:?}", rsync_seen, foreign));
             info.class(format!("open-form-fetched:{}", rsync_seen || https_seen));
@@ -240,6 +246,15 @@ fn prop(c: &Case, info: &mut CaseInfo) -> Verdict {
             Verdict::Pass
         }
     }
+}
+
+pub const KEY_NORMALISED: &str = "C31/https-request-to-ip-literal-or-localhost/authority-normalised-by-client";
+
+/// Is the host of a CONNECT authority (host:port as sent by the client) an IP literal or localhost?
+fn connect_host_is_dubious(authority: &str) -> bool {
+    let host = authority.rsplit_once(':').map(|x| x.0).unwrap_or(authority);
+    let host = host.trim_start_matches('[').trim_end_matches(']');
+    host.eq_ignore_ascii_case("localhost") || host.parse::<std::net::IpAddr>().is_ok()
 }
 
 /// Does the CONNECT authority `got` (always host:port) name the URI authority `want`?
